@@ -104,6 +104,20 @@ def run_election(ctx, prof, monitors, round_cap=None):
     ctx.prof = prof
     if any(getattr(m, 'needs_snaps', False) for m in monitors):
         install_snapshots(E, ctx)
+    if any(getattr(m, 'needs_surplus_hist', False) for m in monitors):
+        # observer (reads only): every assignment to E.surplus with the number of actions recorded so far; the record keeps
+        # only the surplus of a round's last iteration, and "the surplus stopped decreasing" needs the one before it
+        hist = ctx.extra.setdefault('surplus_hist', [])
+
+        def _get(self):
+            return self.__dict__['_obs_surplus']
+
+        def _set(self, v):
+            self.__dict__['_obs_surplus'] = v
+            hist.append((len(self.erecord['actions']) if getattr(self, 'erecord', None) else 0, v))
+        cur = E.__dict__.pop('surplus', None)
+        E.__class__ = type('ObservedElection', (Election,), {'surplus': property(_get, _set)})
+        E.__dict__['_obs_surplus'] = cur
     if round_cap:
         orig_new = E.newRound
 
